@@ -260,6 +260,75 @@ def reused_object(ctx, mon):
         mon.end_case()
 
 
+def foreign_files(ctx, mon):
+    """Files as another build of the library might write them - the members save() writes plus extra members named after the
+    sketch object's public attributes (tables, constants), with perturbed values - are loaded (or refused); afterwards an
+    unrelated sketch of the same precision, and one built afterwards, must still answer with the shipped tables."""
+    import os
+
+    s = sk()
+    rng = ctx.rng("foreign")
+    for p in (7, 11, 14):
+        case = {"foreign_files": p}
+        mon.begin_case(case)
+        other = s.HyperLogLog(p, 3)
+        m = 1 << p
+        other.registers[:] = ideal_registers(rng, p, int(m * 3.0))
+        thr, raw0, bias0 = float(other.threshold), np.array(other.raw_estimate, dtype=np.float64), np.array(other.bias_data, dtype=np.float64)
+        q0 = float(other.query())
+        want0 = hll_ref.estimate(np.asarray(other.registers), p, thr, raw0, bias0)
+        src = s.HyperLogLog(p, 3)
+        for i in range(200):
+            src.add(b"k%d" % i)
+        path = state.tmp_path(".npz")
+        try:
+            src.save(path)
+            with np.load(path) as z:
+                members = {k: np.array(z[k]) for k in z.files}
+            extra = {}
+            for name, val in vars(src).items():
+                if name.startswith("_") or name in members or name in ("registers", "shm", "existing_shm"):
+                    continue
+                if isinstance(val, np.ndarray) and val.dtype.kind == "f" and val.size > 1:
+                    extra[name] = np.asarray(val, dtype=np.float64) * 1.013 + 7.0
+                elif isinstance(val, (float, np.floating)):
+                    extra[name] = np.float64(float(val) * 1.02 + 1.0)
+            n_loaded = 0
+            for variant in range(3):
+                mv = dict(members)
+                if variant >= 1:
+                    mv.update(extra)
+                if variant == 2:
+                    # members beyond the two the file format is documented by (args, the registers): as another build wrote them
+                    mv = {k: (np.asarray(v, dtype=np.float64) * 1.013 + 7.0 if k not in ("args", "hll") and getattr(v, "dtype", None) is not None
+                              and v.dtype.kind == "f" else v) for k, v in mv.items()}
+                p2 = state.tmp_path(".npz")
+                np.savez(p2, **mv)
+                try:
+                    loaded = s.HyperLogLog.load(p2)
+                    n_loaded += 1
+                    del loaded
+                except Exception:  # noqa: BLE001  (refusing such a file is fine)
+                    pass
+                finally:
+                    os.unlink(p2)
+                q1 = float(other.query())
+                mon.check(q1 == q0, "loading-a-file-leaves-the-answers-of-unrelated-sketches-alone", p=p, before=q0, after=q1, extra_members=sorted(extra), variant=variant)
+                fresh = s.HyperLogLog(p, 3)
+                fresh.registers[:] = other.registers
+                qf = float(fresh.query())
+                mon.check(abs(qf - want0) <= REL * max(abs(want0), 1e-300), "query==HLL++(registers)-with-the-shipped-tables-after-loading-a-foreign-file", p=p, got=qf, want=want0,
+                          extra_members=sorted(extra), variant=variant)
+                mon.check(np.array_equal(np.asarray(fresh.raw_estimate, dtype=np.float64), raw0) and np.array_equal(np.asarray(fresh.bias_data, dtype=np.float64), bias0),
+                          "shipped-tables-unchanged-after-loading-a-foreign-file", p=p, variant=variant)
+            mon.count("foreign_files_loaded", n_loaded)
+            mon.count("foreign_file_cases")
+        finally:
+            os.unlink(path)
+        mon.nontrivial(True)
+        mon.end_case()
+
+
 def table_sanity(ctx, mon):
     s = sk()
     mon.begin_case({"tables": "structure"})
@@ -282,10 +351,13 @@ def run(ctx, mon):
     thread_queries(ctx, mon)
     reused_object(ctx, mon)
     run_cases(ctx, mon, gen_cases(ctx), run_case)
+    foreign_files(ctx, mon)  # last: if a load poisons process-wide tables, everything before it was judged with the shipped ones
 
 
 def replay(case, ctx, mon):
-    if "reused_object" in case:
+    if "foreign_files" in case:
+        foreign_files(ctx, mon)
+    elif "reused_object" in case:
         reused_object(ctx, mon)
     elif "threads" in case:
         thread_queries(ctx, mon)
